@@ -623,7 +623,9 @@ impl FileStateMachine {
             for (op_code, key, value, term, expire_at_secs) in operations {
                 match op_code {
                     WalOpCode::Insert => {
-                        if let Some(value_data) = value {
+                        // A zero-length value is a legitimate (empty) value, not a missing one.
+                        {
+                            let value_data = value.unwrap_or_default();
                             // Check if key is already expired (crash-safe TTL semantics)
                             let is_expired = if let Some(secs) = expire_at_secs {
                                 let expire_at =
@@ -665,8 +667,6 @@ impl FileStateMachine {
                             }
 
                             applied_count += 1;
-                        } else {
-                            warn!("INSERT operation without value");
                         }
                     }
                     WalOpCode::Delete => {
